@@ -369,7 +369,8 @@ def body_param(E, n, key, kind):
         if key == 'growing.reset_rho':
             contradiction = (val is True)   # needs reset_delta
         if key == 'init.random_initial_directions':
-            contradiction = False
+            # forcing the coordinate initialisation contradicts an npt above (n+1)(n+2)/2, which only random directions can place
+            contradiction = E.all([val is False, npt > (n + 1) * (n + 2) // 2])
     if ok is None:
         bad, good = False, False
     else:
